@@ -597,7 +597,7 @@ def run(st, tier, seed):
                            "not compared); non-ASCII white space follows str.isspace, non-ASCII letters in length names are outside the model")
     rng = core.rng_for(seed, "c13")
     reqs, impls = [], []
-    n = 700 if tier == "quick" else 120000
+    n = 4000 if tier == "quick" else 120000
     for i in range(n):
         lines, params, kinds = gen_case(rng)
         check_case(res, lines, params, kinds, reqs, impls, i)
@@ -612,7 +612,7 @@ def run(st, tier, seed):
     for i, (lines, params) in enumerate(fixed):
         check_case(res, lines, params, ["fixed"], reqs, impls, 10 ** 6)
     # end to end
-    m_comp, m_sys = (40, 15) if tier == "quick" else (4000, 1500)
+    m_comp, m_sys = (150, 50) if tier == "quick" else (4000, 1500)
     with core.scratch("pepper_c13_") as sd:
         for i in range(m_comp):
             end_to_end(res, rng, sd, i, "comp", reqs, impls)
